@@ -15,8 +15,17 @@ Crash in every state + two concurrent installers), model-checked by TLC, bound t
  interruption   the install is re-run in a child process that strace kills (SIGKILL) before each of its
                 file-system syscalls; the tree is inspected at every such point, then the install re-run.
  concurrency    two installers (goroutines and processes) with different index versions on one tree.
+ index histories  spec/kernels/IndexHistory.tla: the index-acceptance state machine over HISTORIES of offered
+                index documents (root-signed / freshness-only / both / stranger / tampered / freshness key in
+                the root role x version x content x age, from an empty, a legacy or a root-verified recorded
+                state).  TLC checks HwmMonotone, OlderRefused, FreshnessNeverNewContent, AcceptedIsRecorded
+                on the model and exports EVERY history up to the bound with the expected verdict and recorded
+                mark after each offer; harness/drivers/idxhist replays each one on the REAL
+                registry.TrustedVerifier (real keys, real envelopes, one state file per history); TLC validates
+                the recorded traces against spec/kernels/IndexHistoryTrace.tla, and the exported expectation
+                is compared step by step.
 """
-import json, os, random, subprocess, time
+import json, os, random, shutil, subprocess, sys, time
 import vlib
 
 PROP = "C19"
@@ -201,6 +210,352 @@ def sampled_scenarios(n, rng, root):
     return out
 
 
+# ---------------------------------------------------------------------------------- index acceptance over histories
+IH_FILES = ["IndexHistoryOps.tla", "IndexHistory.tla", "IndexHistoryTrace.tla"]
+IH_INVS = ("TypeOK HwmMonotone OlderRefused RollbackOnlyIfOlder FreshnessNeverNewContent AcceptedIsRecorded OnlyAnchors "
+           "ExportCases")
+IH_ALL_SIGS = '{"root","fresh","both","stranger","tampered","freshtampered","freshasroot"}'
+IH_BASE = dict(Sigs='{"root","fresh","tampered"}', Versions="{1,2,3}", Contents='{"A","B"}', Ages='{"fresh"}',
+               InitSet='"empty"', MaxLen="3", RecordFresh="TRUE", CheckContent="TRUE", CheckRollback="TRUE", Export="TRUE")
+IH_BATCH = 48
+IH_PROBE_CONFIGS = ("seeded2", "core4")     # whose traces the trace-oracle probes are cut from (one per tier)
+ROLLBACK = "registry.index_rollback"
+
+
+def ih_files():
+    return [os.path.join(vlib.SPEC, FAMILY, f) for f in IH_FILES]
+
+
+def ih_cfg(over, invariants=IH_INVS):
+    c = dict(IH_BASE)
+    c.update(over)
+    return ("SPECIFICATION Spec\nCONSTANTS\n" + "".join("  %s = %s\n" % kv for kv in c.items()) +
+            "INVARIANTS " + invariants + "\nCHECK_DEADLOCK FALSE\n")
+
+
+def ih_configs(tier):
+    """(name, constants, TLC timeout): every history of MaxLen offers of the product Sigs x Versions x Contents x Ages,
+    from every recorded start state of InitSet, is exported and replayed"""
+    if tier == "quick":
+        return [("core3", dict(Sigs='{"root","fresh"}'), 300),                                # 12^3      = 1728
+                ("wide2", dict(Sigs=IH_ALL_SIGS, Versions="{1,2}", Ages='{"fresh","stale"}', MaxLen="2"), 300),  # 56^2 = 3136
+                ("seeded2", dict(Sigs='{"root","fresh","both","tampered"}', InitSet='"seeded"', MaxLen="2"), 300)]  # 2 x 24^2 = 1152
+    return [("core4", dict(MaxLen="4"), 1800),                                               # 18^4      = 104976
+            ("wide3", dict(Sigs=IH_ALL_SIGS), 1800),                                         # 42^3      = 74088
+            ("stale3", dict(Sigs='{"root","fresh","both"}', Ages='{"fresh","stale"}'), 1800),  # 36^3      = 46656
+            ("full2", dict(Sigs=IH_ALL_SIGS, Contents='{"A","B","P"}', Ages='{"fresh","stale"}', InitSet='"all"',
+                           MaxLen="2"), 1800),                                               # 3 x 126^2 = 47628
+            ("seeded3", dict(Sigs='{"root","fresh","both","freshasroot"}', Contents='{"A","B","P"}',
+                             InitSet='"seeded"'), 1800)]                                     # 2 x 36^3  = 93312
+
+
+# models of BROKEN verifiers: each must violate the named invariant of IndexHistory (non-vacuity of the spec)
+IH_SELFTESTS = [
+    ("st-fresh-unrecorded", dict(RecordFresh="FALSE"), "AcceptedIsRecorded"),
+    ("st-fresh-unrecorded-older", dict(RecordFresh="FALSE"), "OlderRefused"),
+    ("st-fresh-anycontent", dict(CheckContent="FALSE"), "FreshnessNeverNewContent"),
+    ("st-norollback", dict(CheckRollback="FALSE"), "HwmMonotone"),
+]
+
+
+def ih_parse(out):
+    """CASE lines -> sorted list of (init, offers, expected): init = (hwm, rec); offers = ((sig, ver, content, age), ...);
+    expected = ((ok, code, by, hwm, rec), ...)"""
+    it = sys.intern
+    cases = []
+    for line in out.splitlines():
+        k = line.find("CASE ")
+        if k < 0:
+            continue
+        js = line[k + 5:].strip()
+        if js.endswith('"'):
+            js = js[:-1]
+        try:
+            c = json.loads(js.replace('\\"', '"'))
+            cases.append(((c["init"]["hwm"], it(c["init"]["rec"])),
+                          tuple((it(x["o"]["sig"]), x["o"]["ver"], it(x["o"]["content"]), it(x["o"]["age"])) for x in c["steps"]),
+                          tuple((x["ok"], it(x["code"]), it(x["by"]), x["hwm"], it(x["rec"])) for x in c["steps"])))
+        except Exception:
+            raise vlib.Infra("cannot parse CASE line: " + line[:300])
+    cases.sort()
+    return cases
+
+
+def ih_hist(hid, case):
+    init, offers, _ = case
+    return {"id": hid, "init": {"hwm": init[0], "rec": init[1]},
+            "offers": [{"sig": o[0], "ver": o[1], "content": o[2], "age": o[3]} for o in offers]}
+
+
+def ih_batches(name, hists, root, size=IH_BATCH):
+    return [{"id": "ih-%s-b%05d" % (name, i // size), "root": root, "fam": name, "hists": hists[i:i + size]}
+            for i in range(0, len(hists), size)]
+
+
+def ih_segments(traces):
+    """batch traces -> {history id: (Reset event of the batch, [Hist, Offer, OfferRet, ...])}"""
+    segs = {}
+    for tr in traces:
+        cur = None
+        for e in tr:
+            if e["ev"] == "Hist":
+                cur = []
+                segs[e["h"]] = (tr[0], cur)
+            if cur is not None and e["ev"] != "End":
+                cur.append(e)
+    return segs
+
+
+def ih_observed(seg):
+    return tuple((e["ok"], e["code"], e["by"], e["hwm"], e["rec"]) for e in seg if e["ev"] == "OfferRet")
+
+
+def ih_root():
+    """directory of the per-history state files: a tmpfs if there is one (tens of thousands of fsync'ed writes)"""
+    for base in ("/dev/shm",):
+        if os.path.isdir(base) and os.access(base, os.W_OK):
+            d = os.path.join(base, "verif-c19-ih-%d" % os.getpid())
+            try:
+                os.makedirs(d, exist_ok=True)
+                return d
+            except OSError:
+                pass
+    d = os.path.join(vlib.scratch(), "ih")
+    os.makedirs(d, exist_ok=True)
+    return d
+
+
+def ih_probes(segs):
+    """corrupted copies of real, conforming histories: each must make TLC report the intended invariant"""
+    import copy
+
+    def find(pred):
+        for hid in sorted(segs):
+            reset, seg = segs[hid]
+            rets = [e for e in seg if e["ev"] == "OfferRet"]
+            offs = [e for e in seg if e["ev"] == "Offer"]
+            for k in range(len(rets)):
+                prev = rets[k - 1]["hwm"] if k else seg[0]["init"]["hwm"]
+                if pred(offs[k]["o"], rets[k], prev):
+                    return reset, seg, k
+        raise vlib.Infra("index histories: no history to build a trace-oracle probe from (vacuous run)")
+
+    def mk(name, want, pred, f):
+        reset, seg, k = find(pred)
+        tr = copy.deepcopy(vlib.project([[reset] + seg + [{"ev": "End", "n": seg[-1]["n"] + 1}]], drop_fields=("t", "msg"))[0])
+        tr[0]["scenario"] = "probe-ih-" + name
+        tr[1]["h"] = "probe-ih-" + name
+        rets = [e for e in tr if e["ev"] == "OfferRet"]
+        prev = rets[k - 1]["hwm"] if k else tr[1]["init"]["hwm"]
+        f(rets[k], prev)
+        return (want, tr)
+
+    def unrecorded(e, prev):
+        e["hwm"] = prev
+
+    def down(e, prev):
+        e["hwm"] = prev - 1
+
+    def accept(by):
+        def f(e, prev):
+            e["ok"], e["code"], e["by"] = True, "", by
+        return f
+
+    def rollback(e, prev):
+        e["ok"], e["code"], e["by"] = False, ROLLBACK, ""
+
+    return [mk("unrecorded", "HwmMonotone", lambda o, r, prev: r["ok"] and r["by"] == "freshness" and o["ver"] > prev, unrecorded),
+            mk("down", "HwmMonotone", lambda o, r, prev: r["ok"] and prev >= 2, down),
+            mk("older", "OlderIndexRefused", lambda o, r, prev: r["code"] == ROLLBACK, accept("root")),
+            mk("falserollback", "OlderIndexRefused", lambda o, r, prev: r["ok"] and o["ver"] > prev, rollback),
+            mk("newcontent", "InstalledOnlyIfChecked",
+               lambda o, r, prev: o["sig"] == "fresh" and r["code"] == "registry.index_integrity" and r["rec"] not in ("none", o["content"]),
+               accept("freshness")),
+            mk("badsig", "InstalledOnlyIfChecked", lambda o, r, prev: o["sig"] == "tampered" and not r["ok"], accept("root"))]
+
+
+def ih_config_run(name, over, timeout, tier, root, with_probes):
+    """one model configuration: TLC explores + exports, the driver replays, TLC validates, the expectation is compared"""
+    quick = tier == "quick"
+    files = ih_files()
+    r = vlib.tlc_design("IndexHistory", ih_cfg(over), files, name="IndexHistory-" + name, timeout=timeout,
+                        heap_gb=4 if quick else 12, workers=2 if quick else 6)
+    cases = ih_parse(r["out"])
+    design = {"name": "IndexHistory-" + name, "states": r["states"], "distinct": r["distinct"], "cases": len(cases),
+              "wall_s": round(r["wall_s"], 1)}
+    r = None
+    if not cases:
+        raise vlib.Infra("no CASE exported by IndexHistory configuration " + name)
+    ids = ["ih-%s-%06d" % (name, i) for i in range(len(cases))]
+    case_of = dict(zip(ids, cases))
+    batches = ih_batches(name, [ih_hist(h, c) for h, c in zip(ids, cases)], root)
+    traces = vlib.run_harness("idxhist", batches, name="ih-" + name, timeout=3000)
+    bad = [tr for tr in traces if any(e["ev"] in ("HarnessError", "ChildTimeout", "Panic") for e in tr)]
+    if bad:
+        raise vlib.Infra("index histories: harness errors in batch %s: %s" % (bad[0][0].get("scenario"), [
+            e for e in bad[0] if e["ev"] in ("HarnessError", "ChildTimeout", "Panic")][:2]))
+    segs = ih_segments(traces)
+    if set(segs) != set(ids):
+        raise vlib.Infra("index histories: %d histories sent, %d came back" % (len(ids), len(segs)))
+    probes = ih_probes(segs) if with_probes else []
+    viols, tstats = vlib.validate_traces("IndexHistoryTrace", files, vlib.project(traces, drop_fields=("t", "msg")) +
+                                         [p[1] for p in probes], name=PROP + "ih-" + name, chunk_events=20000,
+                                         par=4 if quick else 8)
+    n_events = sum(len(t) for t in traces)
+    traces = None
+    for want, ptr in probes:
+        pid = ptr[0]["scenario"]
+        got = {v["inv"] for v in viols if v["scen"] == pid}
+        if want not in got:
+            raise vlib.Infra("trace-oracle self-test: corrupted history %s was not flagged as %s (got %s)" % (pid, want, sorted(got)))
+    viols = [v for v in viols if not v["scen"].startswith("probe-")]
+
+    out = {"design": design, "violations": [], "mismatches": [], "other": {}, "trace_states": tstats["trace_states"],
+           "histories": len(cases), "offers": 0, "events": n_events, "probes": len(probes), "keys": set(), "nontrivial": set(),
+           "fresh_acc": 0, "refused_by": {}, "fresh_guarded_rollbacks": 0, "fresh_newcontent_refused": 0, "compared": 0,
+           "sample": None}
+    judged = set()
+    for v in viols:
+        hid = v["scen"]
+        if hid not in case_of:
+            raise vlib.Infra("violation for unknown history %r" % hid)
+        if v["inv"] == "ModelMismatch":
+            out["mismatches"].append(v)
+            continue
+        if v["inv"] not in C19_INVS:
+            out["other"][v["inv"]] = out["other"].get(v["inv"], 0) + 1
+            continue
+        judged.add(hid)
+        init, offers, exp = case_of[hid]
+        reset, seg = segs[hid]
+        at = next((e for e in seg if e["n"] == v["at"]), {})
+        step = offers[at["k"] - 1] if at.get("ev") == "OfferRet" else None
+        feats = ["idxhist", name, "init:%d/%s" % init, "len:%d" % len(offers)] + sorted({"sig:" + o[0] for o in offers})
+        if step:
+            feats += ["at:" + step[0]] + (["accepted-by:" + at["by"]] if at["ok"] else ["refused:" + at["code"]])
+        rec = {"invariant": v["inv"], "engine": "registry", "features": feats, "what": v["what"], "scenario": hid, "at": v["at"]}
+        scenario = dict(ih_hist(hid, case_of[hid]), mode="idxhist", fam=name,
+                        expected=[dict(zip(("ok", "code", "by", "hwm", "rec"), x)) for x in exp])
+        out["violations"].append((rec, scenario, [reset] + seg))
+    # the second binding: the outcome TLC exported for each step of each history, compared directly
+    mism_ids = {m["scen"] for m in out["mismatches"]}
+    for hid in ids:
+        init, offers, exp = case_of[hid]
+        reset, seg = segs[hid]
+        obs = ih_observed(seg)
+        if len(obs) != len(offers):
+            raise vlib.Infra("incomplete trace for history " + hid)
+        out["compared"] += 1
+        out["offers"] += len(offers)
+        if obs != exp and hid not in judged and hid not in mism_ids:
+            k = next(i for i in range(len(exp)) if obs[i] != exp[i])
+            out["mismatches"].append({"inv": "ModelMismatch", "scen": hid, "at": 0,
+                                      "what": "history %s from %s: offer %d observed %s, exported %s" % (offers, init, k + 1, obs[k], exp[k])})
+        key = hash((init, offers))
+        out["keys"].add(key)
+        root_floor, hwm = init[0], init[0]
+        nontriv = False
+        for o, x in zip(offers, obs):
+            if x[0]:
+                if x[2] == "freshness":
+                    out["fresh_acc"] += 1
+                    nontriv = True
+                else:
+                    root_floor = o[1]
+            else:
+                nontriv = True
+                out["refused_by"][x[1]] = out["refused_by"].get(x[1], 0) + 1
+                if x[1] == ROLLBACK and o[1] >= root_floor:
+                    out["fresh_guarded_rollbacks"] += 1      # only the mark a FRESHNESS acceptance recorded refuses it
+                if o[0] == "fresh" and x[1] == "registry.index_integrity":
+                    out["fresh_newcontent_refused"] += 1
+        if nontriv:
+            out["nontrivial"].add(key)
+        if out["sample"] is None and len(offers) >= 2 and any(x[2] == "freshness" for x in obs) and any(x[1] == ROLLBACK for x in obs):
+            out["sample"] = {"scenario": dict(ih_hist(hid, case_of[hid]), mode="idxhist", fam=name),
+                             "expected_by_tlc": [dict(zip(("ok", "code", "by", "hwm", "rec"), x)) for x in exp],
+                             "trace_excerpt": [{k: v for k, v in e.items() if k not in ("n", "t")} for e in seg]}
+    return out
+
+
+def ih_family(tier):
+    """the whole index-history family; returns the merged result of every configuration"""
+    t0 = time.time()
+    quick = tier == "quick"
+    files = ih_files()
+    root = ih_root()
+    from concurrent.futures import ThreadPoolExecutor
+    try:
+        cfgs = ih_configs(tier)
+        with ThreadPoolExecutor(max_workers=4 if quick else 2) as ex:
+            runs = [ex.submit(ih_config_run, name, over, to, tier, root, name in IH_PROBE_CONFIGS) for name, over, to in cfgs]
+            st = [ex.submit(vlib.tlc_run, "IndexHistory", ih_cfg(dict(over, Export="FALSE"), invariants=inv), files,
+                            name="IndexHistory-" + name, timeout=300, workers=1, heap_gb=2) for name, over, inv in IH_SELFTESTS]
+            parts = [f.result() for f in runs]
+            selfs = [f.result() for f in st]
+    finally:
+        shutil.rmtree(root, ignore_errors=True)
+    design = [p["design"] for p in parts]
+    for (name, over, inv), r in zip(IH_SELFTESTS, selfs):
+        if r["error"] or r["violated"] != inv:
+            raise vlib.Infra("spec self-test %s: expected %s to be violated by the broken model, got %s %s" %
+                             (name, inv, r["violated"], r["error"]))
+        design.append({"name": "IndexHistory-%s (broken model, %s violated as required)" % (name, inv), "states": r["states"],
+                       "distinct": r["distinct"], "cases": 0, "wall_s": round(r["wall_s"], 1)})
+    res = {"design": design, "violations": [], "mismatches": [], "other": {}, "refused_by": {}, "keys": set(), "nontrivial": set()}
+    for k in ("trace_states", "histories", "offers", "events", "probes", "fresh_acc", "fresh_guarded_rollbacks",
+              "fresh_newcontent_refused", "compared"):
+        res[k] = sum(p[k] for p in parts)
+    for p in parts:
+        res["violations"] += p["violations"]
+        res["mismatches"] += p["mismatches"]
+        res["keys"] |= p["keys"]
+        res["nontrivial"] |= p["nontrivial"]
+        for d, src in ((res["other"], p["other"]), (res["refused_by"], p["refused_by"])):
+            for k, n in src.items():
+                d[k] = d.get(k, 0) + n
+    res["sample"] = next((p["sample"] for p in parts if p["sample"]), None)
+    res["configs"] = [dict(name=n, **{k: v for k, v in dict(IH_BASE, **o).items() if k in
+                                      ("Sigs", "Versions", "Contents", "Ages", "InitSet", "MaxLen")}) for n, o, _ in cfgs]
+    res["wall_s"] = round(time.time() - t0, 1)
+    vlib.log("index histories: %d histories (%d offers) replayed, %d non-trivial, %d violation record(s), %d mismatch(es), %.1fs" %
+             (res["histories"], res["offers"], len(res["nontrivial"]), len(res["violations"]), len(res["mismatches"]), res["wall_s"]))
+    return res
+
+
+def ih_replay(doc, path):
+    s = doc["scenario"]
+    vlib.build_harness()
+    files = ih_files()
+    inv = doc["violation"]["invariant"]
+    root = ih_root()
+    try:
+        stored = []
+        try:
+            tr = doc["trace"] + [{"ev": "End", "n": doc["trace"][-1]["n"] + 1}]
+            viols, _ = vlib.validate_traces("IndexHistoryTrace", files, vlib.project([tr], drop_fields=("t", "msg")), name="replay0")
+            stored = [v for v in viols if v["inv"] == inv]
+        except vlib.Infra as e:
+            print("stored trace could not be re-validated: %s" % str(e)[:200])
+        print("stored trace: %d violation record(s) of %s" % (len(stored), inv))
+        runs = 3
+        hists = [{"id": "%s-r%d" % (s["id"], i), "init": s["init"], "offers": s["offers"]} for i in range(runs)]
+        traces = vlib.run_harness("idxhist", ih_batches("replay", hists, root), name="replay")
+        for hid, (_, seg) in sorted(ih_segments(traces).items()):
+            print("  %s: %s" % (hid, " | ".join("%s v%d %s -> %s, recorded %s/%s" % (
+                o["o"]["sig"], o["o"]["ver"], o["o"]["content"], "accepted by " + r["by"] if r["ok"] else "refused " + r["code"],
+                r["hwm"], r["rec"]) for o, r in zip([e for e in seg if e["ev"] == "Offer"], [e for e in seg if e["ev"] == "OfferRet"]))))
+        viols, _ = vlib.validate_traces("IndexHistoryTrace", files, vlib.project(traces, drop_fields=("t", "msg")), name="replay1")
+    finally:
+        shutil.rmtree(root, ignore_errors=True)
+    again = len({v["scen"] for v in viols if v["inv"] == inv})
+    print("re-executed %d times: violation recurred in %d run(s)" % (runs, again))
+    if stored or again:
+        print("VIOLATION property=%s replay=%s" % (PROP, path))
+        return 1
+    return 0
+
+
 # ---------------------------------------------------------------------------------- the check
 def build_vregistry():
     env = vlib.go_env()
@@ -314,10 +669,13 @@ def run(tier, seed):
     files = spec_files()
     design = []
     verdict = vlib.Verdict(PROP)
+    from concurrent.futures import ThreadPoolExecutor
+    # the index-history family is independent of the install scenarios: it runs beside them from start to end
+    ih_pool = ThreadPoolExecutor(max_workers=1)
+    ih_future = ih_pool.submit(ih_family, tier)
 
     # ---- 1. TLC: exhaustive exploration of the specification, export of the scenario space
     #         (the configurations are independent: they run side by side)
-    from concurrent.futures import ThreadPoolExecutor
     heap = 6 if quick else 16
     jobs = []
     for name, over, to in model_configs(tier):
@@ -433,6 +791,25 @@ def run(tier, seed):
                 not any(v["scen"] == s["id"] for v in viols):
             mismatches.append({"inv": "ModelMismatch", "scen": s["id"], "what": "exported verdict differs: %s" % diff, "at": 0})
 
+    # ---- 5. index acceptance over histories (ran beside 1-4): verdicts of IndexHistoryTrace + the exported expectation
+    ih = ih_future.result()
+    ih_pool.shutdown()
+    # (a wrong acceptance rule deviates on hundreds of enumerated histories: every one is counted and matched against
+    #  the known findings, ONE replay file - the shortest history - is written per class of deviation)
+    ih_paths = {}
+
+    def ih_writer(rec, scenario, tr):
+        cls = (rec["invariant"],) + tuple(f for f in rec["features"] if f.split(":")[0] in ("init", "at", "accepted-by", "refused"))
+        if cls not in ih_paths:
+            ih_paths[cls] = vlib.write_replay(PROP, scenario["id"], scenario, tr, rec)
+        return ih_paths[cls]
+    for rec, scenario, tr in sorted(ih["violations"], key=lambda x: (len(x[1]["offers"]), x[1]["id"], x[0]["at"])):
+        verdict.add(rec, lambda rec=rec, scenario=scenario, tr=tr: ih_writer(rec, scenario, tr))
+    mismatches += ih["mismatches"]
+    for k, n in ih["other"].items():
+        other[k] = other.get(k, 0) + n
+    design += ih["design"]
+
     rc = verdict.finish()
 
     # ---- evidence
@@ -462,24 +839,35 @@ def run(tier, seed):
         if installed == 0 or len(refused_by) < 4 or crash_points < 20 or trials < 4 or rb_trials == 0:
             raise vlib.Infra("vacuous run: installed=%d refusal codes=%d crash points=%d trials=%d rollback refusals=%d" %
                              (installed, len(refused_by), crash_points, trials, rb_trials))
+        if ih["fresh_acc"] == 0 or ih["fresh_guarded_rollbacks"] == 0 or ih["fresh_newcontent_refused"] == 0 or \
+                len(ih["refused_by"]) < 3:
+            raise vlib.Infra("vacuous run (index histories): freshness acceptances=%d, rollbacks refused only by a freshness-"
+                             "recorded mark=%d, freshness over new content refused=%d, refusal codes=%s" %
+                             (ih["fresh_acc"], ih["fresh_guarded_rollbacks"], ih["fresh_newcontent_refused"], sorted(ih["refused_by"])))
     samples = []
     for s, tr in (list(zip(scen, traces))[:1] + list(zip(scen, traces))[n_exported - 1:n_exported] +
                   list(zip(crash, traces_crash))[:1] + list(zip(conc, traces_conc))[:1]):
         samples.append({"scenario": {k: s[k] for k in s if k not in ("root", "tools")},
                         "expected_by_tlc": exp_of.get(s["id"]), "trace_excerpt": trace_excerpt(tr, 14)})
-    cov = {"states": int(sum(d["distinct"] for d in design) + tstats["trace_states"]),
-           "transitions": int(sum(d["states"] for d in design) + tstats["trace_states"]),
-           "traces_validated_against_impl": len(all_tr),
+    if ih["sample"]:
+        samples.append(ih["sample"])
+    cov = {"states": int(sum(d["distinct"] for d in design) + tstats["trace_states"] + ih["trace_states"]),
+           "transitions": int(sum(d["states"] for d in design) + tstats["trace_states"] + ih["trace_states"]),
+           "traces_validated_against_impl": len(all_tr) + ih["histories"],
            "samples": samples,
-           "evaluations": len(all_tr) + crash_points + trials,
-           "distinct_nontrivial": len(keys),
+           "evaluations": len(all_tr) + crash_points + trials + ih["offers"],
+           "distinct_nontrivial": len(keys) + len(ih["nontrivial"]),
            "rule": "case = one scenario exported by TLC from the exhaustive exploration of Registry.tla (archive entry list x "
                    "gate outcomes) or a seeded point of the full product, run on the real registry.Install; distinct = "
                    "distinct (observed verdict, refusal code, signed/unsigned path, cache, archive form, entry list); "
-                   "plus each kill point of the interruption runs and each concurrent trial (counted, not keyed)",
+                   "plus each kill point of the interruption runs and each concurrent trial (counted, not keyed); "
+                   "plus each distinct history of offered index documents exported by TLC from IndexHistory.tla and replayed "
+                   "on the real TrustedVerifier that contains a refusal or a freshness-only acceptance (evaluations count "
+                   "every offer of every history)",
            "exhaustive": True,
            "exhaustive_scope": "every exported scenario of every model configuration listed in design_checks was executed "
-                               "on the real code; interruption: every file-system syscall of the listed installs",
+                               "on the real code; interruption: every file-system syscall of the listed installs; index "
+                               "histories: every history of MaxLen offers of each listed configuration (index_histories.configs)",
            "design_checks": design,
            "scenarios_exported_by_tlc": n_exported, "exported_verdicts_compared": n_cmp,
            "seeded_product_samples": len(scen) - n_exported,
@@ -487,8 +875,17 @@ def run(tier, seed):
            "crash_scenarios": len({s["id"].rsplit("-p", 1)[0] for s in crash}), "crash_points": crash_points, "crash_steps_distinct": len(crash_steps),
            "crash_steps": crash_steps[:80],
            "concurrent_scenarios": len(conc), "concurrent_trials": trials, "rollback_refusals_under_concurrency": rb_trials,
-           "events_validated": sum(len(t) for t in all_tr), "trace_states": tstats["trace_states"],
-           "model_mismatches": len(mismatches), "trace_oracle_probes_flagged": n_probes,
+           "events_validated": sum(len(t) for t in all_tr) + ih["events"], "trace_states": tstats["trace_states"] + ih["trace_states"],
+           "model_mismatches": len(mismatches), "trace_oracle_probes_flagged": n_probes + ih["probes"],
+           "index_histories": {"configs": ih["configs"], "histories_exported_by_tlc_and_replayed": ih["histories"],
+                               "distinct_histories": len(ih["keys"]),
+                               "distinct_nontrivial_histories": len(ih["nontrivial"]),
+                               "nontrivial_rule": "a history containing a refusal or a freshness-only acceptance",
+                               "offers_replayed": ih["offers"], "exported_outcomes_compared": ih["compared"],
+                               "freshness_only_acceptances": ih["fresh_acc"], "refusals_by_code": ih["refused_by"],
+                               "rollbacks_refused_only_by_a_freshness_recorded_mark": ih["fresh_guarded_rollbacks"],
+                               "freshness_signature_over_unverified_content_refused": ih["fresh_newcontent_refused"],
+                               "events_validated": ih["events"], "trace_states": ih["trace_states"], "wall_s": ih["wall_s"]},
            "violations_of_other_properties_seen": other,
            "known_findings_seen": dict(verdict.known)}
     vlib.write_evidence(PROP, tier, seed, "model_checking", cov, time.time() - t0, len(verdict.violations), ASSUMPTIONS)
@@ -507,12 +904,17 @@ ASSUMPTIONS = [
     "an interruption is a SIGKILL of the installing process before one of its file-system syscalls (strace inject); "
     "power loss / page-cache loss is not modelled",
     "the offline bundle path (InstallFromBundle) and a processor module that passes WASM validation are not exercised",
+    "index histories: offers reach one installation one after the other (concurrent offers are the concurrency family, "
+    "root-signed only); contents are three fixed content subtrees, timestamps are now / now-30d, versions 1..3; the "
+    "per-history state files live on a tmpfs when /dev/shm is writable (durability is the interruption family's subject)",
 ]
 
 
 # ---------------------------------------------------------------------------------- replay
 def replay(path):
     doc = json.load(open(path))
+    if doc["scenario"].get("mode") == "idxhist":
+        return ih_replay(doc, path)
     s = dict(doc["scenario"])
     vlib.build_harness()
     s["tools"] = {"vregistry": build_vregistry(), "strace": "/usr/bin/strace"}
